@@ -20,7 +20,7 @@ RULE_FED = ("fedlab part: (a) two hand-written federations -- an interface whose
             "the operations reach (plan-time and runtime types, plus up to two unreached ones; closed across interfaces "
             "except for the second set of every third configuration). For every operation the decision functions range over "
             "all coordinates an authorizer can be asked about for it (response positions and the collector's list, which "
-            "includes planner-added @key/@requires inputs): all 2^n when n <= 6, else 200 random ones "
+            "includes planner-added @key/@requires inputs): all 2^n when n <= 6, else 200 (thorough tier; 64 in the quick tier) random ones "
             "incl. allow-all and deny-all; each runs through ExecutionEngine.Execute with engine.WithAuthorizer (post-fetch) "
             "and with engine.WithPreFetchFieldAuthorizer (pre-fetch). Operations whose un-authorized run already differs "
             "from the monolith are skipped (C01 territory). A run is non-trivial when at least one denied position holds a "
@@ -144,8 +144,8 @@ def run_fed(chk):
         return state, allcases
     exe, model = b
     quick = chk.tier == "quick"
-    maxd = 200
-    ncfg = 110 if quick else 1500
+    maxd = 64 if quick else 200
+    ncfg = 90 if quick else 1500
     for i, cmd in enumerate(_corpus_cmds(exe)):
         bb = vlib.run_batch(chk, "%s %s -maxd %d -out {out}" % (exe, cmd, maxd), model, "fed_corpus%d" % i, timeout=3000)
         if bb:
